@@ -46,7 +46,10 @@ def run_property(pid: str, tier: str, seed: int, write: bool = True, repo=None) 
         st = selftest.run(pid, seed)
         rep.extra["selftest"] = st["summary"]
         rep.notes.append("self-test: %(mutants)d mutants (%(caught)d caught), "
-                         "%(benign)d benign variants (%(silent)d silent)" % st["summary"])
+                         "%(benign)d benign variants (%(silent)d silent); stored corpus: "
+                         "%(stored_breakages_reported)d of %(stored_breakages)d breakages reported, "
+                         "%(refactorings_without_violation)d of %(refactorings)d refactorings without a "
+                         "violation, %(corpus_patches_not_applicable)d patches not applicable" % st["summary"])
         code2 = report.finish(rep, write=write)
         if st["errors"]:
             for e in st["errors"]:
